@@ -135,3 +135,40 @@ Definition holds_kcv (c : ccase) : bool :=
       && forallb (fun i => Qc_eqb (cov_row x a p i) 0) (seq 1 p)
       && Qc_eqb e (energy_cov a x p)
   end.
+
+(* ------------------------------------------------------------------ call histories *)
+(* A history is a sequence of calls on block objects that the caller reuses and refills in place between
+   calls.  The functions are pure, so the model is per call: every call's result must equal the model (and
+   satisfy the property) on the contents the block has AT THE TIME OF THAT CALL, whatever was computed on the
+   same object before. *)
+Inductive hfn := HKac | HKcv | HLev | HAcorr | HLagm.
+Inductive hobs := HF (o : fobs) | HL (l : list Qc) | HT (t : tobs).
+Record hstep := HS { h_fn : hfn; h_blk : list Qc; h_order : option nat; h_obs : hobs }.
+
+Definition corr_step (s : hstep) : bool :=
+  match h_fn s, h_obs s with
+  | HKac, HF o => corr_kac (AC (h_blk s) (h_order s) o)
+  | HKcv, HF o => corr_kcv (CC (h_blk s) (h_order s) o)
+  | HLev, HF o => corr_lev (LC (h_blk s) (h_order s) o)
+  | HAcorr, HL l => list_eqb Qc_eqb l (acorr (h_blk s) (h_order s))
+  | HLagm, HT t => tobs_eqb t (lag_matrix (h_blk s) (h_order s))
+  | _, _ => false
+  end.
+
+Definition holds_step (s : hstep) : bool :=
+  let x := h_blk s in
+  let n := List.length x in
+  let lags := match h_order s with None => n | Some m => S m end in
+  match h_fn s, h_obs s with
+  | HKac, HF o => holds_kac (AC x (h_order s) o)
+  | HKcv, HF o => holds_kcv (CC x (h_order s) o)
+  | HLev, HF o => holds_lev (LC x (h_order s) o)
+  | HAcorr, HL l => list_eqb Qc_eqb l (map (acorr_sum x) (seq 0 lags))
+  | HLagm, HT (TOk t) => tab_eqb t (table lags lags (fun j i => lag_sum x (lags - 1)%nat i j))
+  | HLagm, HT (TErr _) => (n <? lags)%nat
+  | _, _ => false
+  end.
+
+Definition hcase := list hstep.
+Definition corr_hist (c : hcase) : bool := forallb corr_step c.
+Definition holds_hist (c : hcase) : bool := forallb holds_step c.
